@@ -100,7 +100,7 @@ def monitor(driver, doc, text, prep, o):
 
 def run_shard(ctx):
     d = drive.Driver(ctx, feat, flags="random", styles=("runs", "runs", "tiny", "mixed"), judge_model=False, extra=monitor)
-    d.loop(2000, 50000)
+    d.loop(2500, 250000)
 
 
 def replay(ctx, case):
